@@ -33,9 +33,11 @@ def Launch.started : Launch → Bool
 def allCriticalLaunched (ls : List (Bool × Launch)) : Bool := ls.all (fun l => !l.1 || l.2.started)
 
 /-! The corners where the code (and so the faithful model) departs or departed from the property: each is the excluded
-    hypothesis of a `…_partial` theorem and the id of a finding. Four of the seven were repaired in /repo
-    (single_target_ignores_critical, zero_targets_error, configure_nothing_hangs, rpc_ok_on_failed_transition): the
-    verdict `judge` no longer names them (`openCorner`), so a regression is a plain violation. -/
+    hypothesis of a `…_partial` theorem and the id of a finding (or, for deploy_misses_active, of one of its mechanisms).
+    Repaired in /repo: single_target_ignores_critical, zero_targets_error, configure_nothing_hangs,
+    rpc_ok_on_failed_transition, deploy_empty_workflow and the dropped "root is ACTIVE" notification (mechanism (b) of
+    deploy_misses_active, named deploy_notification_lost here): the verdict `judge` no longer names them
+    (`openCorner`), so a regression is a plain violation. -/
 
 /-- The command goes to nobody. -/
 def noTargets (ts : List Target) : Bool := ts.isEmpty
@@ -85,8 +87,9 @@ def judgeNew (wf : Workflow) (ts : List Target) (o : Obs) : Option String :=
   else if acked then
     if reached .CONFIGURED o then some "-"
     else if emptyWorkflow wf then some "deploy_empty_workflow"
-    else if earlyRunning wf.tasks || wf.notifyLost then some "deploy_misses_active"
+    else if earlyRunning wf.tasks then some "deploy_misses_active"
     else if noncritLaunchFail wf.tasks then some "deploy_noncritical_blocks"
+    else if wf.notifyLost then some "deploy_notification_lost"
     else if noTargets ts then some "configure_nothing_hangs"
     else if singleNoncritFail ts then some "single_target_ignores_critical"
     else some "-"
@@ -123,9 +126,10 @@ def judgeAll (sc : Scenario) : List Obs → Option String
     | some h => some h
     | none => if reached .CONFIGURED o then judgeSteps .CONFIGURED (afterCommand tasks sc.configure) sc.steps os else none
 
-/-- The corners that are still open findings (all in DEPLOY). -/
+/-- The corners that are still open findings (both in DEPLOY): a TASK_RUNNING update that overtakes the roster (what is
+    left of deploy_misses_active) and a non-critical task that does not start. -/
 def openCorner (h : String) : Bool :=
-  h == "deploy_empty_workflow" || h == "deploy_misses_active" || h == "deploy_noncritical_blocks"
+  h == "deploy_misses_active" || h == "deploy_noncritical_blocks"
 
 /-- Spec.C02 on an observed run: `none` = as demanded; `some id` = violated inside the open corner `id`;
     `some "-"` = violated elsewhere (which includes the four repaired corners). -/
